@@ -83,3 +83,29 @@ Proof.
   split; [apply whole_inverse_of_forward; assumption | apply whole_forward_of_inverse; assumption].
 Qed.
 Print Assumptions C02_rq_whole_spline_round_trips.
+
+(* ---- elementwise nonlinearities: both round trips and the negated log-abs-det, from the generated formulas ---- *)
+From NF Require Import Proofs.NonlinInv.
+Theorem C02_tanh_sigmoid_cauchy_inverses :
+  (forall x, tanh_inv_ret0 Rops (tanh_fwd_ret0 Rops x) = x) /\
+  (forall y, -1 < y < 1 -> tanh_fwd_ret0 Rops (tanh_inv_ret0 Rops y) = y) /\
+  (forall x, tanh_inv_ret1 Rops (tanh_fwd_ret0 Rops x) = - tanh_fwd_ret1 Rops x) /\
+  (* the sigmoid's inverse clamps to [eps, 1 - eps]; inside the clamp it is exact for every temperature T > 0 *)
+  (forall T eps x, 0 < T -> eps <= sig (T * x) <= 1 - eps -> sigm_inv_ret0 Rops (sigm_fwd_ret0 Rops x eps T) eps T = x) /\
+  (forall T eps y, 0 < T -> 0 < eps -> eps <= y <= 1 - eps -> sigm_fwd_ret0 Rops (sigm_inv_ret0 Rops y eps T) eps T = y) /\
+  (forall T eps x, 0 < T -> eps <= sig (T * x) <= 1 - eps ->
+     sigm_inv_ret1 Rops (sigm_fwd_ret0 Rops x eps T) eps T = - sigm_fwd_ret1 Rops x eps T) /\
+  (forall x, cauchy_inv_ret0 Rops (cauchy_fwd_ret0 Rops x) = x) /\
+  (forall y, 0 < y < 1 -> cauchy_fwd_ret0 Rops (cauchy_inv_ret0 Rops y) = y) /\
+  (forall y, cauchy_inv_ret1 Rops y = - cauchy_fwd_ret1 Rops (cauchy_inv_ret0 Rops y)).
+Proof.
+  repeat split.
+  - apply tanh_inverse_of_forward.
+  - apply tanh_forward_of_inverse; assumption.
+  - apply sigmoid_inverse_of_forward; assumption.
+  - apply sigmoid_forward_of_inverse; assumption.
+  - apply sigmoid_logabsdets_negate; assumption.
+  - apply cauchy_inverse_of_forward.
+  - apply cauchy_forward_of_inverse; assumption.
+Qed.
+Print Assumptions C02_tanh_sigmoid_cauchy_inverses.
